@@ -300,6 +300,34 @@ func txExtra(v any, e []byte, lab func(string)) error {
 	if got := txIdent(reused); got != want {
 		return &keyedError{key: "tx-reused-object-stale-size", msg: fmt.Sprintf("a Transaction object that held a %d-byte transaction before and now decoded this %d-byte one reports %s, a fresh object reports %s", len(smallTxBytes), len(e), got, want)}
 	}
+	// ... the same for the other decoders that fill the receiver: the signed part alone, and JSON
+	used := func() *transaction.Transaction {
+		u := new(transaction.Transaction)
+		r := io.NewBinReaderFromBuf(smallTxBytes)
+		u.DecodeBinary(r)
+		_, _ = u.Hash(), u.Size()
+		return u
+	}
+	fresh, u := new(transaction.Transaction), used()
+	hf := mustHashable(tx)
+	if err1, err2 := fresh.DecodeHashableFields(hf), u.DecodeHashableFields(hf); err1 != nil || err2 != nil {
+		return fmt.Errorf("DecodeHashableFields of the signed part of a valid transaction: fresh object %v, used object %v", err1, err2)
+	}
+	if a, b := txIdent(u), txIdent(fresh); a != b {
+		return &keyedError{key: "tx-reused-object-stale-size", msg: fmt.Sprintf("DecodeHashableFields into a Transaction object that held another transaction before reports %s, into a fresh object %s", a, b)}
+	}
+	if j, err := json.Marshal(tx); err == nil {
+		fresh, u = new(transaction.Transaction), used()
+		err1, err2 := json.Unmarshal(j, fresh), json.Unmarshal(j, u)
+		if (err1 == nil) != (err2 == nil) {
+			return &keyedError{key: "tx-reused-object-stale-size", msg: fmt.Sprintf("UnmarshalJSON of a transaction: into a fresh object %v, into an object that held another transaction before: %v", err1, err2)}
+		}
+		if err1 == nil {
+			if a, b := txIdent(u), txIdent(fresh); a != b {
+				return &keyedError{key: "tx-reused-object-stale-size", msg: fmt.Sprintf("UnmarshalJSON into a used Transaction object reports %s, into a fresh object %s", a, b)}
+			}
+		}
+	}
 	return nil
 }
 
